@@ -77,11 +77,9 @@ def e2e_case(args):
     except Exception as ex:
         import traceback
         tb = traceback.extract_tb(ex.__traceback__)
-        inrepo = [f for f in tb if "/pyyeti/" in f.filename]
-        where = "%s:%s" % (inrepo[-1].filename, inrepo[-1].lineno) if inrepo else "checker"
-        if inrepo:
-            return (args, [("shape", "failed", "the real code raised %r at %s" % (ex, where))], time.time() - t0)
-        raise
+        fr_ = ([f for f in tb if "/pyyeti/" in f.filename] or [tb[-1]])[-1]
+        return (args, [("symbolic run completes", "undecided", "exception while the real code ran on SYMBOLIC stand-ins (%r at %s:%s): not a violation unless a concrete run "
+                        "reproduces it - tool limit" % (ex, fr_.filename, fr_.lineno))], time.time() - t0)
 
 
 def _e2e_case(args):
